@@ -831,8 +831,8 @@ def _judged(case, io):
     for i, (sc, st) in enumerate(zip(step_cases(case), io.get("then", []))):
         if not is_valid(sc):
             break                   # an edit made the inputs malformed: what follows is compared with the model only
-        out.append((f"after the caller edited the objects it had passed in ({st['how']}, step {i + 1}) and called "
-                    f"create_jdd() again: ", sc, st))
+        out.append((f"after the caller edited the objects it had passed in ({st['how']}, step {i + 1}) and asked again "
+                    f"(create_jdd() on the same loader, or a new loader from the same params dict): ", sc, st))
     return out
 
 
